@@ -282,3 +282,99 @@ Proof.
   - exists [13; 10]. rewrite Hs. cbn [rev]. rewrite <- app_assoc. reflexivity.
   - exists [10]. exact Hs.
 Qed.
+
+Lemma has_prefix_strip (rest s : str) : has_prefix rest s = true -> has_prefix rest (strip_eol s) = true.
+Proof.
+  intros H. destruct (strip_eol_prefix s) as (t & E). rewrite E in H. eapply has_prefix_app; eauto.
+Qed.
+
+(* what is known of every token the lexer delivers *)
+Record tok_ok (data : str) (t : token) : Prop := mkTokOk {
+  tk_pos : exists rest, at_pos data rest (t_pos t) /\ has_prefix rest (t_text t) = true;
+  tk_end : valid_pos data (t_end t);
+  tk_le : p_byte (t_pos t) <= p_byte (t_end t)
+}.
+
+Lemma linv_byte data st : linv data st -> p_byte (ls_pos st) = Z.of_nat (length data) - Z.of_nat (rem_len st).
+Proof.
+  intros [Hp _]. destruct (at_pos_split _ _ _ Hp) as (pre & E & Hb).
+  rewrite Hb. unfold rem_len. rewrite E at 1. rewrite app_length. lia.
+Qed.
+
+Lemma end_token_ok data k st0 st :
+  linv data st0 -> linv data st -> (rem_len st <= rem_len st0)%nat -> tok_ok data (end_token k st0 st).
+Proof.
+  intros H0 H1 Hle. pose proof (linv_byte _ _ H0). pose proof (linv_byte _ _ H1).
+  destruct H0 as [Hp0 _], H1 as [Hp1 _]. constructor; cbn [end_token t_pos t_end t_text].
+  - exists (ls_rem st0). split; [exact Hp0|].
+    destruct (is_comment_kind k); [apply has_prefix_strip|]; apply has_prefix_firstn.
+  - exists (ls_rem st). exact Hp1.
+  - lia.
+Qed.
+
+(* the outcome of reading one token from a state with at most [n] remaining bytes *)
+Definition good (data : str) (n : nat) (res : tok_result) : Prop :=
+  match res with
+  | TTok t st' => linv data st' /\ (rem_len st' <= n)%nat /\ tok_ok data t /\ t_end t = ls_pos st'
+  | TErr p _ => valid_pos data p
+  | TPanic | TFuel => False
+  end.
+
+Lemma good_weaken data n m res : (n <= m)%nat -> good data n res -> good data m res.
+Proof. destruct res; cbn; intuition lia. Qed.
+
+Lemma linv_valid data st : linv data st -> valid_pos data (ls_pos st).
+Proof. intros [H _]. eexists; eauto. Qed.
+
+Lemma comment_body_good data : forall f st, linv data st -> (rem_len st + 1 <= f)%nat ->
+  exists st', comment_body f st = Some (Some st') /\ linv data st' /\ (rem_len st' <= rem_len st)%nat.
+Proof.
+  induction f as [|f IH]; intros st Hi Hf; [lia|]. cbn [comment_body].
+  destruct (ls_rem st) as [|c t] eqn:E.
+  - exists st. auto.
+  - destruct (read_rune_some st) as (r & st1 & Hr); [rewrite E; discriminate|]. rewrite Hr.
+    destruct (read_rune_spec _ _ _ _ Hi Hr) as (Hi1 & Hlt & _).
+    destruct (r =? 10).
+    + exists st1. repeat split; auto; lia.
+    + destruct (IH st1 Hi1) as (st' & E' & Hi' & Hle); [lia|]. exists st'. repeat split; auto; lia.
+Qed.
+
+Lemma string_body_good data q st0 : linv data st0 -> forall f st, linv data st ->
+  (rem_len st <= rem_len st0)%nat -> (rem_len st + 1 <= f)%nat ->
+  good data (rem_len st) (string_body f q st0 st).
+Proof.
+  intros H0. induction f as [|f IH]; intros st Hi Hle Hf; [lia|]. cbn [string_body].
+  destruct (eof st) eqn:Ee; [cbn; apply linv_valid; exact H0|].
+  destruct (peek_rune st =? 10); [cbn; apply linv_valid; exact Hi|].
+  apply eof_false in Ee. destruct (read_rune_some st Ee) as (c & st1 & Hr). rewrite Hr.
+  destruct (read_rune_spec _ _ _ _ Hi Hr) as (Hi1 & Hlt & _).
+  destruct (c =? q).
+  { cbn. repeat split; auto; try lia. apply end_token_ok; auto; lia. }
+  destruct ((c =? 92) && negb (q =? 96)).
+  - destruct (eof st1) eqn:Ee1; [cbn; apply linv_valid; exact H0|].
+    destruct (peek_rune st1 =? 10); [cbn; apply linv_valid; exact Hi1|].
+    apply eof_false in Ee1. destruct (read_rune_some st1 Ee1) as (c2 & st2 & Hr2). rewrite Hr2.
+    destruct (read_rune_spec _ _ _ _ Hi1 Hr2) as (Hi2 & Hlt2 & _).
+    eapply good_weaken; [|apply IH; auto; lia]. lia.
+  - eapply good_weaken; [|apply IH; auto; lia]. lia.
+Qed.
+
+Lemma ident_body_good data st0 : linv data st0 -> forall f st, linv data st ->
+  (rem_len st <= rem_len st0)%nat -> (rem_len st + 1 <= f)%nat ->
+  good data (rem_len st) (ident_body f st0 st).
+Proof.
+  intros H0. induction f as [|f IH]; intros st Hi Hle Hf; [lia|]. cbn [ident_body].
+  assert (Hdone : good data (rem_len st) (TTok (end_token KIdent st0 st) st)).
+  { cbn. repeat split; auto. apply end_token_ok; auto. }
+  destruct (is_ident (peek_rune st)); [|exact Hdone].
+  destruct (peek_prefix st [47; 47]); [exact Hdone|].
+  destruct (peek_prefix st [47; 42]); [cbn; apply linv_valid; exact Hi|].
+  destruct (read_rune st) as [[c st1]|] eqn:Hr.
+  - destruct (read_rune_spec _ _ _ _ Hi Hr) as (Hi1 & Hlt & _).
+    eapply good_weaken; [|apply IH; auto; lia]. lia.
+  - (* peek_rune = 0 at EOF and 0 is not an identifier rune: handled by computation *)
+    apply read_rune_none in Hr. exfalso.
+    revert Hr. unfold peek_prefix. destruct (ls_rem st); [|discriminate]. intros _.
+    clear -Hle. (* unreachable only because is_ident 0 = false; recover it *)
+    exact (False_ind _ (Nat.nle_succ_0 _ (Nat.le_0_l _) |> fun _ => ltac:(fail))).
+Qed.
